@@ -7,7 +7,7 @@ PROPERTY_GROUPS = {
     'C05': ['xml'],
     'C06': ['rep', 'timing', 'dt', 'load', 'httprange'],
     'C08': ['timing'],
-    'C09': ['timing', 'rep', 'dt', 'errors', 'xml'],
+    'C09': ['timing', 'rep', 'dt', 'errors', 'xml', 'mps'],
     'C10': ['drm', 'mp4', 'playready'],
     'C11': ['playready', 'mp4', 'drm', 'clearkey', 'xml'],
     'C12': ['mps'],
